@@ -54,6 +54,9 @@ def spell(code, W, ns):
         "Lit[1,2,3]": lambda: typing.Literal[1, 2, 3], "Lit[3,1,2]": lambda: typing.Literal[3, 1, 2],
         "Opt['A']": lambda: typing.Optional["KA"], "tU['A',B]": lambda: typing.Union["KA", B], "List['A']": lambda: typing.List["KA"],
         "list['A']": lambda: list["KA"], "('A',B)": lambda: ("KA", B),
+        "Ann['A']": lambda: typing.Annotated["KA", 1], "type['A']": lambda: type["KA"], "type[Ann[A]]": lambda: type[typing.Annotated[A, 1]],
+        "Opt[Ann[A]]": lambda: typing.Optional[typing.Annotated[A, "m"]],
+        "'Text'": lambda: "Text", "'Text|Counter'": lambda: "Text | Counter", "'Opt[List]'": lambda: "typing.Optional[List]",
         "dict[A,B]": lambda: dict[A, B], "Dict[A,B]": lambda: typing.Dict[A, B],
         "type[A]": lambda: type[A], "Type[A]": lambda: typing.Type[A],
     }
@@ -70,6 +73,9 @@ PAIRS = [
     ("'tU[A,B]'", "A|B"), ("'(A,B)'", "tU[A,B]"), ("'Ann[A|B]'", "A|B"), ("'A|None'", "Opt[A]"), ("'Lit[0,1]'", "Lit[1,0]"), ("'List[A]'", "list[A]"),
     ("list[A]", "List[A]"), ("list[A]", "'list[A]'"),
     # a string nested inside a typing construct (typing wraps it in a ForwardRef) names the same type as the whole-annotation string
+    # a string names what the module's own globals bind it to, also when typing exports the same name
+    ("'Text'", "A"), ("'Text|Counter'", "A|B"), ("'Opt[List]'", "Opt[A]"),
+    ("Ann['A']", "A"), ("type['A']", "type[A]"), ("type[Ann[A]]", "type[A]"), ("Opt[Ann[A]]", "Opt[A]"),
     ("Opt[A]", "Opt['A']"), ("tU[A,B]", "tU['A',B]"), ("list[A]", "List['A']"), ("list[A]", "list['A']"), ("(A,B)", "('A',B)"),
     ("Lit[0,1]", "Lit[1,0]"), ("Lit[True,1]", "Lit[1,True]"), ("Lit[False,2]", "Lit[2,False]"), ("Lit[0,'a']", "Lit['a',0]"), ("Lit[1,2,3]", "Lit[3,1,2]"),
 ]
@@ -97,6 +103,7 @@ def make_run(W, shape, known_active=None):
     def mk(code):
         hs, LOG, ns = _MS.instantiate(W)
         ns["KA"], ns["KB"], ns["typing"] = W.K[0], W.K[1], typing
+        ns["Text"], ns["Counter"], ns["List"] = W.K[0], W.K[1], W.K[0]      # module-level names that typing also exports, bound to the user's classes
         ann = spell(code, W, ns)
         if ann is MISSING:
             hs[0].__annotations__ = {}
